@@ -255,7 +255,7 @@ def H_transform(ctx, cfg):
             A[r, c] = SRl(x)
     for c, v in enumerate((0, 0, 0, 1)):
         A[3, c] = SRl(z3.RealVal(v))
-    affine = SArray(A, "float64")
+    affine = SArray(A.copy(), "float64")         # the image's own array; A stays the harness's reference copy
     ctx.input("affine", syms)
     raw = SArray.from_elems([SIV(z3.IntVal(0), "uint8")] * 8, "uint8", (2, 2, 2))
     img = V.FakeImage(raw, affine=affine)
@@ -276,6 +276,11 @@ def H_transform(ctx, cfg):
     ctx.prove(z3.And(conds), "transform-maps-voxel-corner-coordinates-to-the-affine-position-of-the-voxel-centre")
     last = [(x.r if isinstance(x, SRl) else SRl.of(x).r) for x in json_transform[3]]
     ctx.prove(z3.And(last[0] == 0, last[1] == 0, last[2] == 0, last[3] == 1), "last-row-0-0-0-1")
+    # the image object is left as it was: generating the metadata a second time from it gives the same answer
+    info_s2, jt2, _, _ = W.vr.nibabel_image_to_info(img)
+    M2 = [[(x.r if isinstance(x, SRl) else SRl.of(x).r) for x in row] for row in jt2]
+    ctx.prove(json.loads(info_s2) == info and z3.And([z3.simplify(a - b, som=True) == 0 for ra, rb in zip(M, M2) for a, b in zip(ra, rb)]),
+              "second-generation-from-the-same-image-gives-the-same-metadata")
 
 
 def H_info(ctx, cfg):
@@ -358,6 +363,10 @@ def replay(cfg, cex):
             want = 1e6 * (A[:3, :3] @ real_np.array(idx) + A[:3, 3])
             if not real_np.allclose(got, want, rtol=1e-9, atol=1e-3):
                 return True, f"voxel {idx}: transform gives {got.tolist()} nm, the affine places its centre at {want.tolist()} nm (affine {A[:3].tolist()})"
+        info_s2, jt2, _, _ = vr.nibabel_image_to_info(img)
+        if json.loads(info_s2) != json.loads(info_s) or not real_np.allclose(real_np.array(jt2), M, rtol=1e-12, atol=0):
+            return True, (f"second nibabel_image_to_info on the same image: resolution {json.loads(info_s2)['scales'][0]['resolution']} "
+                          f"(first {res.tolist()}), transform {real_np.array(jt2).tolist()} (first {M.tolist()})")
         return False, "transform correct on the real code"
     # info clauses: write a real NIfTI file with the same shape / stored dtype / header scaling and re-derive the info
     import os
